@@ -2091,7 +2091,7 @@ pub fn check_history(ctx: &mut Ctx, keys: &[Vec<u8>], events: &[HEvent]) {
                 1 => format!("t{}#{} get->{}", e.thread, e.idx, hexo(&e.got)),
                 _ => format!("t{}#{} del->{}", e.thread, e.idx, e.present),
             };
-            ops.push(LOp { inv: e.inv, ret: e.ret, kind, who });
+            ops.push(LOp { inv: e.inv, ret: e.ret, kind, who, proc_seq: None });
         }
         if ops.len() > 60 {
             ops.truncate(60);
